@@ -81,7 +81,7 @@ RULE = (f"fault enumeration: runs 0..{NENUM - 1} enumerate every stall point - a
 PROBES = ["stall_in_handshake", "stall_in_request_line", "stall_in_titan_content",
           "complete_request_no_timeout", "late_data_at_boundary", "slow_handler_5T",
           "slow_middleware", "dribble", "stall_after_large_declared_size",
-          "request_as_several_records_in_one_flight", "damaged_stream_then_silence", "ipv6_peer", "wall_clock_stepped_during_the_run", "loop_blocked_across_the_deadline", "chain_undecided_at_deadline_body_incomplete", "refused_upload_with_content_outstanding", "disconnect_near_deadline", "timeout_40_observed", "via_start_server"]
+          "request_as_several_records_in_one_flight", "damaged_stream_then_silence", "ipv6_peer", "wall_clock_stepped_during_the_run", "loop_blocked_across_the_deadline", "tls_goodbye_then_silence", "handshake_slower_than_request_timeout", "chain_undecided_at_deadline_body_incomplete", "refused_upload_with_content_outstanding", "disconnect_near_deadline", "timeout_40_observed", "via_start_server"]
 COMPONENTS = {
     "real": ["nauyaca.server.protocol (request timer)", "nauyaca.server.tls_protocol (handshake "
              "phase)", "asyncio sslproto handshake/shutdown timers", "OpenSSL"],
@@ -142,7 +142,7 @@ def run_one(ch):
         s = ch.choose("shape", len(SHAPES))
         name, stream = SHAPES[s]
         sc["ipv6"] = ch.chance("ipv6", 0.3)
-        r = ch.choose("scen", 11, [4, 3, 2, 2, 2, 2, 2, 2, 2, 2, 2])
+        r = ch.choose("scen", 13, [4, 3, 2, 2, 2, 2, 2, 2, 2, 2, 2, 2, 2])
         sc["sent"] = stream
         if r == 0:      # late data around the deadline
             k = ch.choose("latek", len(stream))
@@ -188,6 +188,24 @@ def run_one(ch):
             sc["sent"] = stream
             sc["big_declared"] = True
             sc["case"] = f"big-declared-stall/{size}/have={have}"
+        elif r == 12 and mode != "plain":
+            # part of an upload, then the TLS goodbye (close_notify) - and then silence with the TCP
+            # connection left open: still a silent peer, still disconnected in time
+            s = ch.pick("cn.shape", [2, 3, 5])
+            name, stream = SHAPES[s]
+            k = stream.find(b"\r\n") + 2 + ch.choose("cn.k", len(stream) - stream.find(b"\r\n") - 2)
+            sc["script"] = [("send", stream[:k]), ("close_notify",), ("stall",)]
+            sc["sent"] = stream[:k]
+            sc["tls_goodbye"] = True
+            sc["case"] = f"close-notify-then-silence/{name}/k={k}"
+        elif r == 11 and mode != "plain":
+            # a slow link: every flight of the client takes 16 s, so the TLS handshake alone lasts
+            # longer than the request timeout (and less than the handshake timeout); then a stall
+            k = ch.choose("slowhs.k", len(stream))
+            sc["script"] = ([("send", stream[:k])] if k else []) + [("stall",)]
+            sc["sent"] = stream[:k]
+            sc["c2s_latency"] = 16.0
+            sc["case"] = f"handshake-slower-than-request-timeout/{name}/k={k}"
         elif r == 10:
             # the rest of the request arrives a quarter of a second BEFORE the deadline while the
             # event loop is blocked across it (long callback, GC / VM pause): when the loop comes
@@ -316,8 +334,8 @@ def run_one(ch):
         if sc.get("block"):
             sim.block_loop(t0 + sc["block"][0], sc["block"][1])
         src = ("2001:db8::9", 50000, 0, 0) if sc.get("ipv6") else ("10.0.0.9", 50000)
-        ep = raw_connect(net, HOST, 1965, src=src, c2s=WholePolicy(0.001), s2c=WholePolicy(0.001),
-                         tag="k0")
+        ep = raw_connect(net, HOST, 1965, src=src, c2s=WholePolicy(sc.get("c2s_latency", 0.001)),
+                         s2c=WholePolicy(0.001), tag="k0")
         if sc["stall_cipher"] is not None:
             ep.tx.stall_at = sc["stall_cipher"]
         if sc.get("corrupt") is not None and sc["corrupt"] >= 0:
@@ -440,6 +458,8 @@ def run_one(ch):
                             f"peer went silent part-way through the request; connection not ended "
                             f"within the request timeout (closed at {t_close}, limit {limit:.3f})",
                             **ctx)
+            elif sc.get("tls_goodbye"):
+                pass        # the peer has ended its TLS session: only the disconnect is owed
             elif not rx or not pw["ok"] or pw["status"] != 40:
                 res.violate(f"C15/no-40-before-close/{site}",
                             "a TLS session existed but the stalled peer did not receive exactly "
@@ -493,6 +513,11 @@ def run_one(ch):
             elif t_close is None:
                 res.violate(f"C15/no-close-after-response/{site}",
                             "response sent but stream never ended", **ctx)
+            elif t_tcp is None or t_tcp > t_close + 31.0:
+                # the peer neither answers the TLS goodbye nor closes: the server lets go anyway
+                res.violate(f"C15/socket-held-open/{site}",
+                            "the response was delivered and the stream ended, but the TCP connection "
+                            "was still open 31 s later", **ctx)
             else:
                 res.stats["complete_request_no_timeout"] += 1
     else:
@@ -521,6 +546,10 @@ def run_one(ch):
         res.stats["ipv6_peer"] += 1
     if sc.get("block"):
         res.stats["loop_blocked_across_the_deadline"] += 1
+    if sc.get("tls_goodbye"):
+        res.stats["tls_goodbye_then_silence"] += 1
+    if sc.get("c2s_latency"):
+        res.stats["handshake_slower_than_request_timeout"] += 1
     if sc.get("wallstep"):
         res.stats["wall_clock_stepped_during_the_run"] += 1
     if sc.get("slowchain"):
